@@ -16,7 +16,18 @@ use builder::*;
 use serde_json::{json, Value};
 use verif_harness::common::*;
 
-fn run(comp: &str, tgt: &str, calls: &[Value]) -> Value {
+/// the API route used for call i in variant v: variants 0..8 use the same
+/// entry point for every call, 9 and 10 mix them
+fn route_of(v: u32, i: usize) -> u32 {
+    match v {
+        0..=8 => v,
+        9 => (i as u32) * 5 + 3,
+        _ => (i as u32) * 11 + 7,
+    }
+}
+const VARIANTS: u32 = 11;
+
+fn run(comp: &str, tgt: &str, calls: &[Value], variant: u32) -> Value {
     let mut d = make(comp, tgt);
     let mut acc: Vec<(u8, Item)> = vec![];
     let mut steps = vec![];
@@ -26,6 +37,7 @@ fn run(comp: &str, tgt: &str, calls: &[Value]) -> Value {
     for (i, c) in calls.iter().enumerate() {
         let op = c["op"].as_str().unwrap_or("");
         let mut res = "-";
+        d.set_route(route_of(variant, i));
         match op {
             "goto" => {
                 let s = c["n"].as_u64().unwrap_or(0) as u8;
@@ -121,14 +133,31 @@ fn main() {
         let comp = input["comp"].as_str().unwrap_or("none").to_string();
         let tgt = input["tgt"].as_str().unwrap_or("vec").to_string();
         let calls = input["calls"].as_array().cloned().unwrap_or_default();
-        let first = run(&comp, &tgt, &calls);
+        // every behaviour is executed once per API route variant; the
+        // specification does not distinguish them (nor Vec<u8> and BytesMut)
+        let first = run(&comp, &tgt, &calls, 0);
+        let mut tgts = vec![tgt.as_str()];
         if tgt == "vec" {
-            // the specification does not distinguish Vec<u8> and BytesMut
-            let second = run(&comp, "bytes", &calls);
-            if first != second {
-                return json!({"vec": first, "bytes": second});
+            tgts.push("bytes");
+        }
+        for t in tgts {
+            for v in 0..VARIANTS {
+                if v == 0 && t == tgt {
+                    continue;
+                }
+                let other = catch(|| run(&comp, t, &calls, v));
+                if other != first {
+                    return json!({"route_variant": v, "tgt": t, "obs": other, "variant0": first});
+                }
             }
         }
         first
     });
+}
+
+fn catch<F: FnOnce() -> Value>(f: F) -> Value {
+    match std::panic::catch_unwind(std::panic::AssertUnwindSafe(f)) {
+        Ok(v) => v,
+        Err(e) => json!({"panic": panic_msg(e)}),
+    }
 }
